@@ -17,6 +17,7 @@ RULE = ('Random CSV datasets (1-3 symbols starting on different dates, 1-40 rows
 RULE += ' Some tickers carry dots (S0.L next to S0, BRK.B). The two-source handler is asked bid, ask and mid. Every second adjusted dataset is also read through the data handler a BacktestTradingSession builds for itself from $QSTRADER_CSV_DATA_DIR (static universe, or dynamic universe whose members join at the start, mid-way, on the last day), for every asset that is ever a member.'
 RULE += ' A quarter of the files contain untraded days whose bar repeats an earlier bar in every column; 40% of the datasets are read after another source over the same files with the other adjustment setting was built and used; get_assets_historical_closes(start, end, assets) is compared with the raw closes of exactly the bars dated in [start, end] (4 ranges per dataset); every fifth dataset is paired with a second vendor (same tickers/dates, other prices) while its own first rows are blank.'
 RULE += " Column order after Date is shuffled in 30% of the datasets; 15% write dates as M/D/YYYY; 15% have whole-number closes with fractional opens; 20% use lower-case file names (tip, tips, gs); every handler query is repeated through a user-style source whose ask differs from its bid (handler ask = that source's ask)."
+RULE += ' 30% of the datasets are read through a copy.copy/deepcopy of the source handed to the handler in a tuple.'
 ASSUMPTIONS = [
     'unique dates per file; Close and Adj Close are missing together (otherwise "scaled by adjusted-close/close" has no single reading)',
     'values compared at 1e-12 relative (one division and one multiplication in the adjustment)',
